@@ -265,9 +265,19 @@ def _ie_matrix(case, mode):
     return {1: M, 2: M.conj().T, 4: Mi, 8: Mi.conj().T}[mode]
 
 
+def _ie_runaway_on_noise(case, out):
+    """the CG inside InversionEnabler was stopped by the harness while iterating on rounding noise"""
+    if case["mode"] not in (1, 2, 4, 8) or not out.get("recs"):
+        return False
+    inv = {1: 4, 2: 8, 4: 1, 8: 2}[case["mode"]]
+    return _past_rounding_level(_ie_matrix(case, inv), impl.cvec(case, "x"), [q["pos"] for q in out["recs"]]) is not None
+
+
 def oracle_ie(case):
     out = impl.run_ie(case)
     if "error" in out:
+        if out["error"] == "Runaway" and _ie_runaway_on_noise(case, out):
+            return None
         # NotImplementedError is the documented answer for modes neither the operator nor its inverse offers
         return None if out["error"] == "NotImplementedError" else \
             (f"InversionEnabler.apply raised {out['error']} (controller {case['ctrl']['type']})",
@@ -353,6 +363,10 @@ def compare_cg(ctx, case, out, mod):
     cj = case["ctrl"]
     if "error" in out or "error" in mod:
         if "error" in out and "error" in mod and out["error"] == mod["error"]:
+            return None
+        if out.get("error") == "Runaway" and _past_rounding_level(out["A"], out["b"], [q["pos"] for q in out["recs"]]) is not None:
+            ctx.stat("cg:runaway-on-rounding-noise")       # iterating on rounding noise after the system was solved
+            ctx.skipped_near_threshold += 1
             return None
         if "error" in mod and mod["error"] == "fuel":
             ctx.stat("cg:model-out-of-fuel")
@@ -446,7 +460,7 @@ def _model_case(case, fuel=200):
 def _strip(out):
     """JSON-able digest of a real run for the disagreement record"""
     if "error" in out:
-        return out
+        return {"error": out["error"]}
     return dict(status=out.get("status"), itcount=out.get("itcount"), ccount=out.get("ccount"), hint=out.get("hint"),
                 nrecs=len(out.get("recs", [])), value=out.get("value"))
 
@@ -486,6 +500,9 @@ def _one_cg(ctx, c, mod):
 def oracle_cg_from(case, out):
     """oracle on an already computed real run (same statement as oracle_cg)"""
     if "error" in out:
+        if out["error"] == "Runaway" and _past_rounding_level(out["A"], out["b"], [q["pos"] for q in out["recs"]]) is not None:
+            return _oracle_energies(out["A"], out["b"], [(q["pos"], q["grad"], q["value"]) for q in out["recs"]][
+                :_past_rounding_level(out["A"], out["b"], [q["pos"] for q in out["recs"]]) + 1], "cg")
         return (f"ConjugateGradient raised {out['error']} on a {'Hermitian positive definite' if case.get('hpd', True) else 'non-PD'}"
                 f" system with controller {case['ctrl']['type']}",
                 {"site": "cg", "kind": "raised:" + out["error"], "ctrl": case["ctrl"]["type"]})
@@ -557,6 +574,9 @@ def compare_ie(ctx, case, out, mod):
     if "error" in out or "error" in mod:
         ctx.stat(f"ie:error={out.get('error')}")
         if out.get("error") == mod.get("error"):
+            return None
+        if out.get("error") == "Runaway" and _ie_runaway_on_noise(case, out):
+            ctx.skipped_near_threshold += 1
             return None
         return f"error kinds differ: impl={out.get('error')} model={mod.get('error')}"
     direct = not out["recs"]
